@@ -249,6 +249,7 @@ type Probe struct {
 	pendingErr    error
 	pendingDone   bool
 	runHook       func(ctx context.Context) error // queue flavour: run hook body
+	runHookRT     func(ctx context.Context, r controller.QRuntime) error
 	captureRT     bool
 	rt          controller.Runtime // the runtime handle of the running plain controller (C17 drives UpdateInputs through it)
 	onReconcile func(p *Probe, r controller.Runtime) error
@@ -367,6 +368,9 @@ func (p *Probe) Settings() controller.QSettings {
 	}
 	if p.runHook != nil {
 		s.RunHook = func(ctx context.Context, _ *zap.Logger, _ controller.QRuntime) error { return p.runHook(ctx) }
+	}
+	if p.runHookRT != nil {
+		s.RunHook = func(ctx context.Context, _ *zap.Logger, r controller.QRuntime) error { return p.runHookRT(ctx, r) }
 	}
 	return s
 }
